@@ -191,11 +191,13 @@ def parse_defines(clause):
 
 def prepare_attributes(attrs, dyn_attributes, i18n_attributes,
                        ns_attributes, drop_ns):
-    drop = {attribute['name']
-            for attribute, (ns, value) in zip(attrs, ns_attributes)
-            if ns in drop_ns or (
+    drop = set()
+    for attribute in attrs:
+        ns = attribute['namespace']
+        if ns in drop_ns or (
                 (ns == XMLNS_NS or attribute['name'] == 'xmlns') and
-                attribute['value'] in drop_ns)}
+                attribute['value'] in drop_ns):
+            drop.add(attribute['name'])
 
     attributes = []
     normalized = {}
